@@ -29,17 +29,20 @@ def _slice(lines, start, end):
     return "".join(parts)
 
 
-def tiling_violations(text, toks, limit=5, mismatched_out=None):
-    """pure function of (text, token list): list of (kind, detail) violations of the lossless-tiling property"""
+def tiling_violations(text, toks, limit=5, mismatched_out=None, gaps_out=None):
+    """pure function of (text, token list): list of (kind, detail) violations of the lossless-tiling property; mismatched_out receives the
+    indices of all tokens whose text differs from their source slice, gaps_out every uncovered gap as (start, end, text)"""
     from peg_parser.tokenize import Token
 
     lines = readlines(text)
     out = []
     mismatched = []
 
-    def bad(kind, detail):
+    def bad(kind, detail, gap=None):
         if len(out) < limit:
             out.append((kind, detail))
+        if gap is not None and gaps_out is not None:
+            gaps_out.append(gap)
 
     ZERO = {Token.DEDENT, Token.ENDMARKER}
     SIGNIFICANT = {Token.NAME, Token.NUMBER, Token.STRING, Token.OP, Token.FSTRING_START, Token.FSTRING_MIDDLE, Token.FSTRING_END,
@@ -125,7 +128,8 @@ def _check_gap(bad, lines, a, b, gap):
             rest = rest[2:]
             pos_at_line_start = True
         else:
-            bad("uncovered-text", f"{gap!r:.60} between {a} and {b}")
+            # the uncovered remainder and where it starts (None when it spans lines)
+            bad("uncovered-text", f"{gap!r:.60} between {a} and {b}", ((b[0], b[1] - len(rest)) if "\n" not in rest else None, b, rest))
             return
 
 
@@ -179,3 +183,32 @@ def first_diff(a, b):
         i = min(len(a), len(b))
         return i, (a[i] if i < len(a) else None), (b[i] if i < len(b) else None)
     return None
+
+
+_STRING_STARTS = re.compile(r"(?:[A-Za-z]{0,2}['\"])+\Z")
+_STRING_START = re.compile(r"[A-Za-z]{0,2}['\"]")
+
+
+def pending_string_symptom(toks, mismatched, gaps):
+    """The stream-observable signature of finding F08a (a plain single-quoted string start that is not closed on its line emits no
+    token and stays pending; a quote on a later line closes it): every uncovered gap consists of string starts only (optional prefix
+    letters and one quote character each), a STRING token emitted later starts exactly where each of them starts and begins with it,
+    and these late STRING tokens are the only tokens whose text differs from their source slice. Displaced or mis-sized tokens of any
+    other origin (a wrong end column, a dropped buffer, a token emitted twice) do not have this shape."""
+    from peg_parser.tokenize import Token
+
+    if not gaps or not mismatched:
+        return False
+    starts = {}
+    for a, b, text in gaps:
+        if a is None or not _STRING_STARTS.match(text):
+            return False
+        for m in _STRING_START.finditer(text):
+            starts[(a[0], a[1] + m.start())] = m.group()
+    closed = set()
+    for i in mismatched:
+        t = toks[i]
+        if t.type != Token.STRING or t.start not in starts or not t.string.startswith(starts[t.start]):
+            return False
+        closed.add(t.start)
+    return closed == set(starts)
